@@ -101,4 +101,14 @@ def main():
 
 
 if __name__ == "__main__":
-    main()
+    try:
+        main()
+    except SystemExit:
+        raise
+    except BaseException as e:  # noqa: BLE001
+        # a crash of the machinery is never a verdict: exit 1 is reserved for violations that were named
+        import traceback
+
+        traceback.print_exc()
+        common.say(f"MACHINERY-FAILURE: {type(e).__name__}: {str(e)[:300]}")
+        sys.exit(2)
